@@ -46,6 +46,8 @@ def run(P, R, tier):
     box_pipeline(P, R, BI, CI, gb, gi, pg)
     index_path(P, R, pg)
     containers(P, R)
+    exact_test_on_every_path(P, R, CI)
+    common.forward(P, R, 'C13', ['C13.a', 'C13.b'], 'C04.e', 'the boxes the spatial index is built from are the elements\' own extents (sliced arrays included)', floor=10)
     sindex_writers(P, R)
     common.forward(P, R, 'C03', ['C03.a', 'C03.b', 'C03.c', 'C03.d', 'C03.e', 'C03.f', 'C03.g', 'C03.h'], 'C04.e', 'cx with a spatial index is exact only if the R-tree answers exactly', floor=10)
 
@@ -283,6 +285,53 @@ def containers(P, R):
     ok = any(isinstance(c.func, ast.Attribute) and c.func.attr == '__init__' and c.args and norm(c.args[0]) == f'{init.params[1]}._sindex' for c in astq.own_calls(init))
     R.check(ok, 'C04.c', init, None, 'the indexer uses the index of the very array it selects from (obj._sindex)', 'the indexer does not take the index of the array it selects from',
             construct='super().__init__(obj._sindex)')
+
+
+def exact_test_on_every_path(P, R, CI):
+    """C04.f  Whatever shortcut the concrete indexer takes, a row is returned only after the exact test: in the `__getitem__` that
+    `_CoordinateIndexer` resolves to (an override included), every path to a return passes through `_perform_get_item` or through the
+    inherited `__getitem__` (which is checked the same way); in `_perform_get_item` every return passes through `intersects_bounds`."""
+    import cfg as cfgmod
+
+    def passes(f, names, seen):
+        if f.key in seen:
+            return True
+        seen.add(f.key)
+        C = cfgmod.build(f.node)
+        gates = []
+        for s in walk_own(f.node):
+            if isinstance(s, ast.stmt) and not isinstance(s, (ast.If, ast.For, ast.While, ast.With, ast.Try, ast.FunctionDef)):
+                for c in ast.walk(s):
+                    if isinstance(c, ast.Call) and isinstance(c.func, ast.Attribute):
+                        if c.func.attr in names:
+                            gates.append(s)
+                        elif c.func.attr == f.name and norm(c.func.value) == 'super()':
+                            sup = None
+                            for b in (f.cls.mro[1:] if f.cls is not None and f.cls.mro else []):
+                                if f.name in b.members and b.members[f.name][0] == 'func':
+                                    sup = b.members[f.name][1]
+                                    break
+                            if sup is not None and passes(sup, names, seen):
+                                gates.append(s)
+        gn = [C.node(s) for s in gates if C.node(s) is not None]
+        bad = []
+        for ret in [s for s in walk_own(f.node) if isinstance(s, ast.Return)]:
+            if not gn or not C.every_path_passes(C.ENTRY, C.node(ret), gn):
+                bad.append(ret)
+        for ret in bad:
+            R.bad('C04.f', f, ret, f'`{norm(ret)}` in {f.qualname} is reached without {" / ".join(sorted(names))}: rows are returned that never went through the exact '
+                  'intersection test (a missing or empty geometry inside a "covering" box is selected)', construct=f'{f.qualname}: exact test on every path')
+        if not bad:
+            R.ok('C04.f', f, None, f'every return of {f.qualname} passes through {" / ".join(sorted(names))}', construct=f'{f.qualname}: exact test on every path')
+        return not bad
+
+    ci_, mem = P.lookup(CI, '__getitem__')
+    if mem is None or mem[0] != 'func':
+        raise AnalysisError('C04.f: _CoordinateIndexer.__getitem__ not resolvable')
+    passes(mem[1], {'_perform_get_item'}, set())
+    ci_, mem2 = P.lookup(CI, '_perform_get_item')
+    if mem2 is not None and mem2[0] == 'func':
+        passes(mem2[1], {'intersects_bounds'}, set())
 
 
 def sindex_writers(P, R, rule='C04.d'):
